@@ -49,7 +49,7 @@ manifest = {
     "hooks": {
         "guard": "verif",
         "enable": "go test -tags verif (no hook code exists in /repo: every property is observed through exported constructors and interfaces)",
-        "baseline_off_cmd": "cd /repo && for p in blockdevice eviction filesystem random zstd; do go test -vet=off -count=1 ./pkg/$p/... ; done",
+        "baseline_off_cmd": "cd /repo && go test -json -vet=off -count=1 -timeout 25m ./...",
         "source_commits": [],
         "add_only": True,
     },
